@@ -416,6 +416,7 @@ def builders(rep: Report):
     def setup(I, ctx):
         H, W, kH, kW = sizes(ctx)
         psf = ix.input_array("psf", [kH, kW])
+        ctx.ghost["input_ints"] = {"H": H, "W": W}
         return [psf, H, W], {}, (psf, H, W, kH, kW)
 
     def post(I, ctx, outcome, val, aux):
@@ -432,7 +433,8 @@ def builders(rep: Report):
         return out
     run_case(rep, P, QB + "_build_bccb_matrix", "dense", setup, post, lib=lib, contracts={Q + "_pad_psf": k_pad},
              loop_rules={(QB + "_build_bccb_matrix", 0): Outer(), (QB + "_build_bccb_matrix", 1): Inner()},
-             clauses=["returns_a_matrix", "shape_is_HW_by_HW", "entry_is_centred_psf_at_the_periodic_pixel_difference"], replay=replay_restore, timeout_s=30)
+             clauses=["returns_a_matrix", "shape_is_HW_by_HW", "entry_is_centred_psf_at_the_periodic_pixel_difference"], replay=replay_restore, timeout_s=30,
+             model_replay=replay_builder_model("dense"))
 
 
 def sparse_builder(rep: Report):
@@ -601,6 +603,7 @@ def sparse_builder(rep: Report):
     def setup(I, ctx):
         H, W, kH, kW = sizes(ctx)
         psf = ix.input_array("psf", [kH, kW])
+        ctx.ghost["input_ints"] = {"H": H, "W": W}
         return [psf, H, W], {}, (psf, H, W, kH, kW)
 
     def post(I, ctx, outcome, val, aux):
@@ -632,7 +635,7 @@ def sparse_builder(rep: Report):
              loop_rules={(FN, "comp", 0): comp_taps, (FN, 0): Outer(), (FN, 1): Mid(), (FN, 2): Taps()},
              clauses=["returns_a_sparse_matrix", "shape_is_HW_by_HW", "built_from_all_triples_as_data_rows_cols",
                       "lemma.different_taps_of_a_pixel_go_to_different_columns", "lemma.every_nonzero_of_the_convolution_matrix_has_its_triple"],
-             replay=replay_restore, timeout_s=30)
+             replay=replay_restore, timeout_s=30, model_replay=replay_builder_model("sparse"))
 
 
 # ---------------------------------------------------------------------------------------------------
@@ -721,6 +724,24 @@ def _check_restore(psf, H, W, lam, rng, with_builders=True):
     return None
 
 
+def replay_builder_model(which):
+    """run-time contract for a counterexample of a builder obligation: the REAL builder on the kernel and image size read off the (shrunk) model,
+    compared with the convolution matrix computed from the definition"""
+    def fn(inputs):
+        from .. import runtime as rt
+        psf, H, W = np.asarray(inputs["psf"], dtype=float), int(inputs["H"]), int(inputs["W"])
+        if psf.shape[0] > H or psf.shape[1] > W:
+            return None
+        app = rt.app_script()
+        A = conv_matrix(psf, H, W)
+        got = app._build_bccb_matrix(psf, H, W) if which == "dense" else app._build_bccb_csr(psf, H, W).toarray()
+        if got.shape != A.shape or not np.array_equal(got, A):
+            return {"what": f"{which} BCCB builder is not the centred convolution operator", "H": H, "W": W, "psf": psf.tolist(),
+                    "max_abs_difference": float(np.abs(got - A).max()) if got.shape == A.shape else "shape"}
+        return None
+    return fn
+
+
 def replay_blur(seed):
     rng = np.random.default_rng(seed)
     for (H, W, kH, kW) in ((3, 3, 2, 2), (6, 5, 3, 3), (4, 6, 1, 3), (5, 5, 5, 5)):
@@ -790,6 +811,12 @@ def bounded(rep: Report, tier, seed):
             psf /= psf.sum()
             b2.case(f"{P}.bounded.restore", (H, W, kH, kW, lam), lambda psf=psf, H=H, W=W, lam=lam: _check_restore(psf, H, W, lam, rng),
                     f"restore {H}x{W}, kernel {kH}x{kW}, lam {lam}", inputs={"psf": psf, "H": H, "W": W, "lam": lam})
+    # arbitrary non-negative kernels are not normalised and may hold zeros and tiny taps (added after seeds C17-10, C17-11 were missed by this stand-in)
+    tiny = np.array([[0.3, 1e-7, 0.0], [2e-6, 0.5, 0.2]])
+    for nm, (H, W, psf) in (("1x1 tap 0.5", (3, 2, np.array([[0.5]]))), ("1x1 tap 2.5", (1, 1, np.array([[2.5]]))), ("zeros and tiny taps", (3, 4, tiny)),
+                            ("unnormalised 2x2", (4, 2, np.array([[1.5, 0.0], [0.25, 3.0]])))):
+        b2.case(f"{P}.bounded.restore", ("unnormalised", nm), lambda psf=psf, H=H, W=W: _check_restore(psf, H, W, 0.1, rng),
+                f"restore {H}x{W}, non-normalised kernel ({nm}), lam 0.1", inputs={"psf": psf, "H": H, "W": W, "lam": 0.1})
     # lam -> 0 inversion where the blur is invertible
     def inv():
         psf = np.array([[0.0, 0.1, 0.0], [0.1, 0.6, 0.1], [0.0, 0.1, 0.0]])
